@@ -316,7 +316,15 @@ class Threadless(ABC, Generic[T]):
                 self.selector.unregister(fileno)
             self.registered_events_by_work_ids[work_id].clear()
             del self.registered_events_by_work_ids[work_id]
-        self.works[work_id].shutdown()
+        try:
+            self.works[work_id].shutdown()
+        except Exception as exc:
+            # A work failing to shutdown must not take down
+            # the event loop shared with all other works.
+            logger.exception(
+                'Exception during shutdown of work#{0}'.format(work_id),
+                exc_info=exc,
+            )
         del self.works[work_id]
         if self.work_queue_fileno() is not None:
             os.close(work_id)
